@@ -28,12 +28,14 @@ import (
 	"encoding/pem"
 	"errors"
 	"fmt"
+	"io"
 	"os"
 	"path/filepath"
 	"sort"
 	"strings"
 	"sync"
 	"sync/atomic"
+	"testing/iotest"
 	"time"
 
 	"github.com/notaryproject/notation-core-go/signature"
@@ -90,31 +92,70 @@ type target struct {
 
 const keyID = "c07-key"
 
-func ociDesc(name string) ocispec.Descriptor {
+// the descriptor fields that must not reach the payload; OCI targets carry every subset of them
+var extraFields = []string{"urls", "data", "platform", "artifactType"}
+
+func ociDesc(annotations bool, extras int) ocispec.Descriptor {
 	d := ocispec.Descriptor{MediaType: mtManifest, Digest: digest.Digest("sha256:" + hexOf("sha256", []byte("C07 artifact manifest"))), Size: 528}
-	switch name {
-	case "oci-minimal":
-	case "oci-annotations":
+	if annotations {
 		d.Annotations = map[string]string{"org.example.pre": "1", "org.opencontainers.image.title": "näme with blank"}
-	case "oci-extras":
-		d.Annotations = map[string]string{"org.example.pre": "1"}
+	}
+	if extras&1 != 0 {
 		d.URLs = []string{"https://example.com/blobs/1", "https://mirror.example.com/1"}
+	}
+	if extras&2 != 0 {
 		d.Data = []byte("inline data of the artifact")
+	}
+	if extras&4 != 0 {
 		d.Platform = &ocispec.Platform{Architecture: "arm64", OS: "linux", Variant: "v8"}
+	}
+	if extras&8 != 0 {
 		d.ArtifactType = "application/vnd.example.thing.v1"
-	default:
-		panic(name)
 	}
 	return d
+}
+
+func ociName(annotations bool, extras int) string {
+	n := "oci"
+	if annotations {
+		n += "+annotations"
+	}
+	for i, f := range extraFields {
+		if extras&(1<<i) != 0 {
+			n += "+" + f
+		}
+	}
+	if n == "oci" {
+		n = "oci-minimal"
+	}
+	return n
 }
 
 var blobSizes = []int{0, 1, 1024, 1<<20 + 1}
 var blobMTs = []string{"application/octet-stream", "text/plain; charset=utf-8"}
 
-func targets() []target {
+// how a healthy reader hands over the blob: in one piece (bytes.Reader, io.WriterTo), one byte per Read,
+// half of the buffer per Read, the last chunk together with io.EOF
+var deliveries = []string{"whole", "one-byte", "half", "data-with-eof"}
+
+func blobReader(content []byte, delivery string) io.Reader {
+	switch delivery {
+	case "one-byte":
+		return iotest.OneByteReader(bytes.NewReader(content))
+	case "half":
+		return iotest.HalfReader(bytes.NewReader(content))
+	case "data-with-eof":
+		return iotest.DataErrReader(bytes.NewReader(content))
+	}
+	return bytes.NewReader(content)
+}
+
+var allTargets = func() []target {
 	var out []target
-	for _, n := range []string{"oci-minimal", "oci-annotations", "oci-extras"} {
-		out = append(out, target{Name: n, Desc: ociDesc(n)})
+	for _, ann := range []bool{false, true} {
+		for ex := 0; ex < 1<<len(extraFields); ex++ {
+			out = append(out, target{Name: ociName(ann, ex), Desc: ociDesc(ann, ex)})
+		}
 	}
 	for _, s := range blobSizes {
 		for mi, mt := range blobMTs {
@@ -122,7 +163,9 @@ func targets() []target {
 		}
 	}
 	return out
-}
+}()
+
+func targets() []target { return allTargets }
 
 type metaT struct {
 	Name string
@@ -356,13 +399,23 @@ func (s *scriptRepo) PushSignature(ctx context.Context, mediaType string, blob [
 // ---------------------------------------------------------------------------
 // world
 
+type verifierT interface {
+	notation.Verifier
+	notation.BlobVerifier
+}
+
 type world struct {
 	chains map[string]*pki.Chain
-	dir    string // PEM files for signer.NewGenericSignerFromFiles: <spec>.key, <spec>.crt
-	v      interface {
-		notation.Verifier
-		notation.BlobVerifier
-	}
+	dir    string    // PEM files for signer.NewGenericSignerFromFiles: <spec>.key, <spec>.crt
+	v      verifierT // shared by the product phase
+	newV   func() (verifierT, error)
+}
+
+// instances are the objects one history works with.
+type instances struct {
+	s    anySigner
+	envp *envPlugin
+	v    verifierT
 }
 
 func buildWorld(r *hx.Run) *world {
@@ -399,11 +452,14 @@ func buildWorld(r *hx.Run) *world {
 	ok := mocks.AllOK()
 	ok.NoLog = true
 	strict := vt.Named()[0]
-	v, err := verifier.NewVerifierWithOptions(ts, verifier.VerifierOptions{
-		OCITrustPolicy:                 vt.OCIDoc(strict.SV(), []string{"ca:s"}, []string{"*"}),
-		BlobTrustPolicy:                vt.BlobDoc(strict.SV(), []string{"ca:s"}, []string{"*"}),
-		RevocationCodeSigningValidator: ok,
-	})
+	w.newV = func() (verifierT, error) {
+		return verifier.NewVerifierWithOptions(ts, verifier.VerifierOptions{
+			OCITrustPolicy:                 vt.OCIDoc(strict.SV(), []string{"ca:s"}, []string{"*"}),
+			BlobTrustPolicy:                vt.BlobDoc(strict.SV(), []string{"ca:s"}, []string{"*"}),
+			RevocationCodeSigningValidator: ok,
+		})
+	}
+	v, err := w.newV()
 	if err != nil {
 		r.Infra("verifier construction failed: %v", err)
 		r.Finish()
@@ -452,14 +508,35 @@ type caseT struct {
 	Format    string `json:"format"`
 	Signer    string `json:"signer"`
 	Target    string `json:"target"`
+	Delivery  string `json:"blob_delivery,omitempty"` // blobs: how the readers hand over the bytes (signing and verifying)
 	Meta      string `json:"user_metadata"`
 	ExpirySec int64  `json:"expiry_seconds"`
 	Agent     string `json:"signing_agent"`
-	Entry     string `json:"entry"` // "product" or "repository-path"
+	// Entry: "product" (fresh signer), "repository-path", "fault-history" (a blob call whose reader fails comes first,
+	// same signer and verifier instances), "instance-reuse" (Before is signed and verified first by the same instances)
+	Entry      string `json:"entry"`
+	FaultCall  string `json:"fault_call,omitempty"`        // "SignBlob" or "VerifyBlob"
+	FaultAfter int    `json:"fault_after_bytes,omitempty"` // the failing reader delivers this many bytes, then an error
+	Before     *caseT `json:"before,omitempty"`
 }
 
 func (c caseT) String() string {
-	return fmt.Sprintf("%s|%s|%s|%s|%s|%d|%s|%s", c.Spec, short(c.Format), c.Signer, c.Target, c.Meta, c.ExpirySec, c.Agent, c.Entry)
+	t := c.Target
+	if c.Delivery != "" {
+		t += "~" + c.Delivery
+	}
+	s := fmt.Sprintf("%s|%s|%s|%s|%s|%d|%s|%s", c.Spec, short(c.Format), c.Signer, t, c.Meta, c.ExpirySec, c.Agent, c.Entry)
+	if c.Entry == "fault-history" {
+		s += fmt.Sprintf("|after-%s-whose-reader-failed-at-byte-%d", c.FaultCall, c.FaultAfter)
+	}
+	if c.Before != nil {
+		bt := c.Before.Target
+		if c.Before.Delivery != "" {
+			bt += "~" + c.Before.Delivery
+		}
+		s += fmt.Sprintf("|after-same-instances-did-%s|%s|%d", bt, c.Before.Meta, c.Before.ExpirySec)
+	}
+	return s
 }
 
 func short(f string) string {
@@ -504,6 +581,7 @@ type result struct {
 	verified   bool
 	agentClass string
 	retAnn     string // blob: what the annotations of the returned descriptor were
+	faultClass string // fault-history: how the call with the failing reader ended
 	detail     map[string]any
 }
 
@@ -692,20 +770,123 @@ func checkForwarded(res *result, c *caseT, envp *envPlugin) {
 	}
 }
 
+var errInjected = errors.New("c07: injected read error")
+
+const poisonSize = 1024
+
+var poison = func() []byte {
+	b := make([]byte, poisonSize)
+	for i := range b {
+		b[i] = byte(i*17 + 3)
+	}
+	return b
+}()
+
+func flat(key string) string { return strings.ReplaceAll(key, "/", ".") }
+
+// runCase runs one history: a single round trip, or a round trip preceded by a failed blob call / by
+// another round trip of the same signer and verifier instances.
 func (w *world) runCase(r *hx.Run, c *caseT) *result {
+	if w.chains[c.Spec] == nil {
+		return &result{infra: "unknown key spec in " + c.String()}
+	}
+	s, envp, err := w.newSigner(c)
+	if err != nil {
+		return &result{infra: fmt.Sprintf("signer construction (%s): %v", c, err)}
+	}
+	in := &instances{s: s, envp: envp, v: w.v}
+	switch c.Entry {
+	case "product", "repository-path":
+		return w.roundTrip(r, c, in)
+	case "fault-history", "instance-reuse":
+		if in.v, err = w.newV(); err != nil {
+			return &result{infra: fmt.Sprintf("verifier construction: %v", err)}
+		}
+	default:
+		return &result{infra: "unknown entry in " + c.String()}
+	}
+	pre := &result{}
+	var faultClass string
+	if c.Entry == "fault-history" {
+		faultClass = w.faultCall(r, c, in, pre)
+	} else {
+		if c.Before == nil || c.Before.Spec != c.Spec || c.Before.Signer != c.Signer || c.Before.Agent != c.Agent {
+			return &result{infra: "instance-reuse needs a first case with the same signer in " + c.String()}
+		}
+		pre = w.roundTrip(r, c.Before, in)
+	}
+	if pre.infra != "" {
+		return pre
+	}
+	res := w.roundTrip(r, c, in)
+	for i := range res.viols {
+		if c.Entry == "fault-history" {
+			res.viols[i].key = "after-failed-read/" + flat(res.viols[i].key)
+			res.viols[i].what = fmt.Sprintf("after a %s whose reader failed at byte %d (%s): %s", c.FaultCall, c.FaultAfter, faultClass, res.viols[i].what)
+		} else {
+			res.viols[i].key = "instance-reuse/" + flat(res.viols[i].key)
+			res.viols[i].what = "second use of the same signer and verifier instances: " + res.viols[i].what
+		}
+	}
+	// what went wrong before the judged round trip keeps its ordinary key
+	res.viols = append(pre.viols, res.viols...)
+	res.faultClass = faultClass
+	return res
+}
+
+// faultCall performs the blob call whose reader fails after c.FaultAfter bytes. Its result is recorded, not judged.
+func (w *world) faultCall(r *hx.Run, c *caseT, in *instances, pre *result) string {
+	if c.FaultAfter < 0 || c.FaultAfter > poisonSize {
+		pre.infra = "fault_after_bytes out of range in " + c.String()
+		return ""
+	}
+	failing := func() io.Reader {
+		if c.FaultAfter == 0 {
+			return iotest.ErrReader(errInjected)
+		}
+		return io.MultiReader(bytes.NewReader(poison[:c.FaultAfter]), iotest.ErrReader(errInjected))
+	}
+	so := notation.SignerSignOptions{SignatureMediaType: c.Format}
+	var err error
+	switch c.FaultCall {
+	case "SignBlob":
+		r.Eval(1)
+		_, _, err = notation.SignBlob(ctx, in.s, failing(), notation.SignBlobOptions{SignerSignOptions: so, ContentMediaType: blobMTs[0]})
+	case "VerifyBlob":
+		r.Eval(2)
+		var sig []byte
+		sig, _, err = notation.SignBlob(ctx, in.s, bytes.NewReader(poison), notation.SignBlobOptions{SignerSignOptions: so, ContentMediaType: blobMTs[0]})
+		if err != nil {
+			pre.bad("roundtrip/sign-failed:"+c.Signer, "notation.SignBlob failed for a legal input: %v", err)
+			return "not-reached"
+		}
+		_, _, err = notation.VerifyBlob(ctx, in.v, failing(), sig, notation.VerifyBlobOptions{
+			BlobVerifierVerifyOptions: notation.BlobVerifierVerifyOptions{SignatureMediaType: c.Format}, ContentMediaType: blobMTs[0]})
+	default:
+		pre.infra = "unknown fault_call in " + c.String()
+		return ""
+	}
+	switch {
+	case err == nil:
+		return "call-succeeded-despite-read-error"
+	case errors.Is(err, errInjected) || strings.Contains(err.Error(), errInjected.Error()):
+		return "read-error-reported"
+	}
+	return "other-error"
+}
+
+// roundTrip signs the case's target with in.s and verifies the bytes with in.v.
+func (w *world) roundTrip(r *hx.Run, c *caseT, in *instances) *result {
 	res := &result{}
 	t, ok := findTarget(c.Target)
 	meta, ok2 := findMeta(c.Meta)
 	agent, ok3 := findAgent(c.Agent)
-	if !ok || !ok2 || !ok3 || w.chains[c.Spec] == nil {
+	if !ok || !ok2 || !ok3 {
 		res.infra = "unknown dimension value in " + c.String()
 		return res
 	}
-	s, envp, err := w.newSigner(c)
-	if err != nil {
-		res.infra = fmt.Sprintf("signer construction (%s): %v", c, err)
-		return res
-	}
+	s, envp := in.s, in.envp
+	var err error
 	so := notation.SignerSignOptions{SignatureMediaType: c.Format, ExpiryDuration: time.Duration(c.ExpirySec) * time.Second, SigningAgent: agent}
 	metaArg := copyMap(meta)
 
@@ -718,7 +899,7 @@ func (w *world) runCase(r *hx.Run, c *caseT) *result {
 		content := blobContent(t.Size)
 		want := wantT{MediaType: t.MT, Digest: blobDigest(t.Size, specHash[c.Spec]), Size: int64(t.Size), Annotations: meta}
 		r.Eval(1)
-		sig, _, err := notation.SignBlob(ctx, s, bytes.NewReader(content), notation.SignBlobOptions{SignerSignOptions: so, ContentMediaType: t.MT, UserMetadata: metaArg})
+		sig, _, err := notation.SignBlob(ctx, s, blobReader(content, c.Delivery), notation.SignBlobOptions{SignerSignOptions: so, ContentMediaType: t.MT, UserMetadata: metaArg})
 		if err != nil {
 			res.bad("roundtrip/sign-failed:"+c.Signer, "notation.SignBlob failed for a legal input: %v", err)
 			return res
@@ -728,14 +909,10 @@ func (w *world) runCase(r *hx.Run, c *caseT) *result {
 		if ref, rerr := refsig.Verify(c.Format, sig); rerr == nil {
 			pre := &result{}
 			judgePayload(pre, c, ref.Payload, want, true)
-			for _, v := range pre.viols {
-				if strings.HasPrefix(v.key, "blob/wrong-digest-algorithm") {
-					res.viols = append(res.viols, v)
-				}
-			}
+			res.viols = append(res.viols, pre.viols...)
 		}
 		r.Eval(1)
-		desc, outcome, err := notation.VerifyBlob(ctx, w.v, bytes.NewReader(content), sig, notation.VerifyBlobOptions{
+		desc, outcome, err := notation.VerifyBlob(ctx, in.v, blobReader(content, c.Delivery), sig, notation.VerifyBlobOptions{
 			BlobVerifierVerifyOptions: notation.BlobVerifierVerifyOptions{SignatureMediaType: c.Format}, ContentMediaType: t.MT})
 		if err != nil {
 			res.bad("roundtrip/verification-failed:"+c.Signer, "notation.VerifyBlob rejects what notation.SignBlob produced: %v", err)
@@ -798,7 +975,7 @@ func (w *world) runCase(r *hx.Run, c *caseT) *result {
 		res.bad("metadata/callers-descriptor-modified", "the annotations of the caller's descriptor changed to %s", vt.MapString(desc.Annotations))
 	}
 	r.Eval(1)
-	outcome, err := w.v.Verify(ctx, t.Desc, sig, notation.VerifierVerifyOptions{ArtifactReference: ref, SignatureMediaType: c.Format})
+	outcome, err := in.v.Verify(ctx, t.Desc, sig, notation.VerifierVerifyOptions{ArtifactReference: ref, SignatureMediaType: c.Format})
 	if err != nil {
 		res.bad("roundtrip/verification-failed:"+c.Signer, "verifier.Verify rejects what the signing API produced: %v", err)
 		return res
@@ -872,14 +1049,22 @@ func report(r *hx.Run, c *caseT, res *result) string {
 	if strings.HasPrefix(c.Target, "blob") {
 		fam = "blob"
 	}
-	if c.Entry == "repository-path" {
+	switch c.Entry {
+	case "repository-path":
 		fam = "oci-repository"
+	case "fault-history", "instance-reuse":
+		fam = c.Entry + "/" + fam
 	}
 	if res.infra != "" {
 		r.Infra("%s", res.infra)
 		return fam + "/" + c.Signer + ":infra"
 	}
+	seen := map[string]bool{}
 	for _, v := range res.viols {
+		if seen[v.key] {
+			continue // the payload is judged on the signed bytes and again on the reported payload
+		}
+		seen[v.key] = true
 		r.Violation(v.key, fmt.Sprintf("[%s] %s", c, v.what), c)
 	}
 	if res.agentClass != "" {
@@ -887,6 +1072,9 @@ func report(r *hx.Run, c *caseT, res *result) string {
 	}
 	if res.retAnn != "" {
 		r.Outcome("blob/returned-descriptor-annotations:" + res.retAnn)
+	}
+	if res.faultClass != "" {
+		r.Outcome("fault-history/call-with-failing-reader/" + c.FaultCall + ":" + res.faultClass)
 	}
 	switch {
 	case len(res.viols) > 0 && res.verified:
@@ -940,24 +1128,77 @@ func main() {
 	}
 
 	tgs := targets()
+	type tdT struct {
+		t target
+		d string
+	}
+	var tds []tdT // target x delivery (deliveries apply to blobs only)
+	for _, t := range tgs {
+		if !t.Blob {
+			tds = append(tds, tdT{t, ""})
+			continue
+		}
+		for _, d := range deliveries {
+			tds = append(tds, tdT{t, d})
+		}
+	}
+	slowSpec := func(spec string) bool { return spec == pki.RSA3072 || spec == pki.RSA4096 }
+
+	// ---- phase 1 (sequential, first in the fresh process): a blob call whose reader fails, then an honest round trip
+	var faults []caseT
+	combo := 0
+	for _, spec := range pki.AllSpecs {
+		for _, f := range forge.Formats {
+			for _, kind := range signerKinds {
+				for _, call := range []string{"SignBlob", "VerifyBlob"} {
+					for _, k := range []int{0, poisonSize / 2, poisonSize - 1} {
+						combo++
+						for di, d := range deliveries {
+							if !r.Thorough() && di != combo%len(deliveries) {
+								continue // quick: the delivery of the follow-up rotates instead of multiplying
+							}
+							faults = append(faults, caseT{Spec: spec, Format: f, Signer: kind, Target: "blob-1024-mt0", Delivery: d, Meta: "one", ExpirySec: 3600, Agent: "default",
+								Entry: "fault-history", FaultCall: call, FaultAfter: k})
+						}
+					}
+				}
+			}
+		}
+	}
+
+	// ---- phase 2 (parallel): the product
 	var cases []caseT
 	full := 0
 	for si, spec := range pki.AllSpecs {
 		for fi, f := range forge.Formats {
 			for ki, kind := range signerKinds {
-				for ti, t := range tgs {
+				for ti, td := range tds {
 					for mi, m := range metas {
 						for ei, e := range expirySeconds {
 							for ai, a := range agents {
 								full++
 								if !r.Thorough() {
 									// quick: RSA-3072/4096 and the 1 MiB blob only on a diagonal of the remaining dimensions
-									slow := spec == pki.RSA3072 || spec == pki.RSA4096 || (t.Blob && t.Size > 1<<20)
-									if slow && (si+fi+ki+ti+mi+ei+ai)%4 != 0 {
+									// (1 in 4); OCI targets with a proper subset of the extra fields and blobs delivered in pieces on a
+									// diagonal too (1 in 3, combined 1 in 12; the 1 MiB blob in pieces 1 in 24)
+									big := td.t.Blob && td.t.Size > 1<<20
+									pieces := td.t.Blob && td.d != "whole"
+									subset := !td.t.Blob && ti%16 != 0 && ti%16 != 15
+									every := 1
+									if slowSpec(spec) || big {
+										every = 4
+									}
+									if pieces || subset {
+										every *= 3
+									}
+									if big && pieces {
+										every = 24
+									}
+									if (si+fi+ki+ti+mi+ei+ai)%every != 0 {
 										continue
 									}
 								}
-								cases = append(cases, caseT{Spec: spec, Format: f, Signer: kind, Target: t.Name, Meta: m.Name, ExpirySec: e, Agent: a.Name, Entry: "product"})
+								cases = append(cases, caseT{Spec: spec, Format: f, Signer: kind, Target: td.t.Name, Delivery: td.d, Meta: m.Name, ExpirySec: e, Agent: a.Name, Entry: "product"})
 							}
 						}
 					}
@@ -972,23 +1213,65 @@ func main() {
 			cases = append(cases, caseT{Spec: spec, Format: f, Signer: signerKinds[(si+fi)%len(signerKinds)], Target: "oci-minimal", Meta: "three", ExpirySec: 86400, Agent: agents[(si+fi)%2].Name, Entry: "repository-path"})
 		}
 	}
+	nRepo := len(cases) - nProduct
+	// instance reuse: the same signer and verifier instances do X and then Y, every ordered pair of four configurations
+	reuse := []caseT{
+		{Target: "oci-minimal", Meta: "none", ExpirySec: 0},
+		{Target: ociName(true, 15), Meta: "three", ExpirySec: 86400},
+		{Target: "blob-1-mt0", Delivery: "whole", Meta: "none", ExpirySec: 0},
+		{Target: "blob-1024-mt1", Delivery: "half", Meta: "one", ExpirySec: 3600},
+	}
+	for si, spec := range pki.AllSpecs {
+		for fi, f := range forge.Formats {
+			for ki, kind := range signerKinds {
+				for ai, a := range agents {
+					for xi, x := range reuse {
+						for yi, y := range reuse {
+							if !r.Thorough() && slowSpec(spec) && (si+fi+ki+ai+xi+yi)%4 != 0 {
+								continue
+							}
+							x.Spec, x.Format, x.Signer, x.Agent, x.Entry = spec, f, kind, a.Name, "instance-reuse"
+							first := x
+							y.Spec, y.Format, y.Signer, y.Agent, y.Entry, y.Before = spec, f, kind, a.Name, "instance-reuse", &first
+							cases = append(cases, y)
+						}
+					}
+				}
+			}
+		}
+	}
+	nReuse := len(cases) - nProduct - nRepo
 	r.Extra["product_full_size"] = full
 	r.Extra["product_cases_run"] = nProduct
-	r.Extra["repository_path_cases"] = len(cases) - nProduct
-	r.Extra["alphabet"] = map[string]int{"key_specs": len(pki.AllSpecs), "formats": 2, "signer_kinds": len(signerKinds), "targets": len(tgs), "user_metadata": len(metas), "expiry_durations": len(expirySeconds), "signing_agents": len(agents)}
+	r.Extra["repository_path_cases"] = nRepo
+	r.Extra["instance_reuse_histories"] = nReuse
+	r.Extra["fault_histories"] = len(faults)
+	r.Extra["alphabet"] = map[string]int{"key_specs": len(pki.AllSpecs), "formats": 2, "signer_kinds": len(signerKinds), "oci_targets": 2 << len(extraFields), "blob_targets": len(blobSizes) * len(blobMTs), "blob_deliveries": len(deliveries),
+		"user_metadata": len(metas), "expiry_durations": len(expirySeconds), "signing_agents": len(agents), "fault_calls": 2, "fault_points": 3, "reuse_configurations": len(reuse)}
 
-	// the round trips run in parallel; judging results are reported afterwards in enumeration order,
-	// so the case written out for a violation key is always the first one of the enumeration
-	results := make([]*result, len(cases))
-	panics := make([]string, len(cases))
-	r.Parallel(len(cases), func(i int) {
-		results[i] = w.runCase(r, &cases[i])
-	}, func(i int, v any, stack string) {
-		panics[i] = fmt.Sprint(v)
-	})
+	// results are reported in enumeration order, so the case written out for a violation key is always
+	// the first one of the enumeration
+	all := append(faults, cases...)
+	results := make([]*result, len(all))
+	panics := make([]string, len(all))
+	one := func(i int) {
+		defer func() {
+			if v := recover(); v != nil {
+				results[i], panics[i] = nil, fmt.Sprint(v)
+			}
+		}()
+		results[i] = w.runCase(r, &all[i])
+	}
+	t0 := time.Now()
+	for i := range faults {
+		one(i) // sequential: a failed call may leave process-wide state behind, the next call must not see it
+	}
+	t1 := time.Now()
+	r.Parallel(len(cases), func(i int) { one(len(faults) + i) }, nil)
+	r.Extra["phase_wall_seconds"] = map[string]float64{"fault_histories_sequential": t1.Sub(t0).Seconds(), "product_and_reuse_parallel": time.Since(t1).Seconds()}
 	var verified, total int64
-	for i := range cases {
-		c := &cases[i]
+	for i := range all {
+		c := &all[i]
 		total++
 		if results[i] == nil {
 			r.Violation("roundtrip/panic", fmt.Sprintf("[%s] panic in the sign/verify round trip: %s", c, panics[i]), c)
@@ -1001,16 +1284,16 @@ func main() {
 			r.Nontrivial(c.String())
 		}
 		r.Outcome(report(r, c, res))
-		if i%97 == 0 && res.detail != nil {
+		if i%197 == 0 && res.detail != nil {
 			r.Sample(map[string]any{"case": c, "observed": res.detail})
 		}
 		results[i] = nil
 	}
 
-	r.Extra["round_trips"] = total
-	r.Extra["round_trips_verified"] = verified
+	r.Extra["histories"] = total
+	r.Extra["histories_whose_judged_round_trip_verified"] = verified
 	if verified == 0 {
-		r.Infra("vacuous run: none of %d round trips verified", total)
+		r.Infra("vacuous run: none of %d judged round trips verified", total)
 	}
 	r.Finish()
 }
